@@ -932,6 +932,76 @@ pub fn c05_check(ctx: &mut Ctx, buf: &[u8], tags: u32) {
         );
         return;
     }
+    // (4) the iterator's other entry points -- nth, skip, step_by, count, last, size_hint-driven adaptors -- yield
+    // the same sequence as repeated next(): "yields exactly the frames, in order"
+    if (ctx.evaluations % 3 == 0 || buf.len() > 60_000) && (!ref_frames.is_empty() || buf.contains(&0xD3)) {
+        let nref = ref_frames.len();
+        let r = guard(|| {
+            let start_of = |it: &MsgFrameIter, fr: &MessageFrame| it.consumed().wrapping_sub(fr.frame_len());
+            let mut out: Vec<(&'static str, Vec<usize>)> = Vec::new();
+            for k in [1usize, 2, 5] {
+                let mut it = MsgFrameIter::new(buf);
+                let got = (&mut it).nth(k).map(|fr| fr.frame_data().as_ptr() as usize - buf.as_ptr() as usize);
+                let _ = start_of;
+                out.push((["", "nth(1)", "nth(2)", "", "", "nth(5)"][k], got.into_iter().collect()));
+            }
+            let mut it = MsgFrameIter::new(buf);
+            out.push(("skip(1)", (&mut it).skip(1).take(4).map(|fr| fr.frame_data().as_ptr() as usize - buf.as_ptr() as usize).collect()));
+            let mut it = MsgFrameIter::new(buf);
+            out.push(("step_by(2)", (&mut it).step_by(2).take(4).map(|fr| fr.frame_data().as_ptr() as usize - buf.as_ptr() as usize).collect()));
+            let mut it = MsgFrameIter::new(buf);
+            out.push(("last()", (&mut it).last().map(|fr| fr.frame_data().as_ptr() as usize - buf.as_ptr() as usize).into_iter().collect()));
+            let mut it = MsgFrameIter::new(buf);
+            out.push(("count()", vec![(&mut it).count()]));
+            let mut it = MsgFrameIter::new(buf);
+            let mut a: Vec<usize> = Vec::new();
+            if let Some(f0) = (&mut it).next() {
+                a.push(f0.frame_data().as_ptr() as usize - buf.as_ptr() as usize);
+                if let Some(f2) = (&mut it).nth(1) {
+                    a.push(f2.frame_data().as_ptr() as usize - buf.as_ptr() as usize);
+                }
+            }
+            out.push(("next() then nth(1)", a));
+            out
+        });
+        match r {
+            Err(p) => ctx.panic_violation("C05.no_panic", &p, "MsgFrameIter adaptors (nth / skip / step_by / last / count)", replay()),
+            Ok(out) => {
+                ctx.count("buffers_checked_through_iterator_adaptors");
+                let starts: Vec<usize> = ref_frames.iter().map(|f| f.0).collect();
+                for (name, got) in out {
+                    let exp: Vec<usize> = match name {
+                        "nth(1)" => starts.get(1).copied().into_iter().collect(),
+                        "nth(2)" => starts.get(2).copied().into_iter().collect(),
+                        "nth(5)" => starts.get(5).copied().into_iter().collect(),
+                        "skip(1)" => starts.iter().skip(1).take(4).copied().collect(),
+                        "step_by(2)" => starts.iter().step_by(2).take(4).copied().collect(),
+                        "last()" => starts.last().copied().into_iter().collect(),
+                        "count()" => vec![nref],
+                        _ => {
+                            let mut e = Vec::new();
+                            if let Some(s0) = starts.first() {
+                                e.push(*s0);
+                                if let Some(s2) = starts.get(2) {
+                                    e.push(*s2);
+                                }
+                            }
+                            e
+                        }
+                    };
+                    if got != exp {
+                        ctx.violation(
+                            format!("C05.iterator|adaptor|{}", name.split('(').next().unwrap_or(name)),
+                            "C05.iterator",
+                            format!("{} on the iterator gives {:?}; the frames of this buffer start at {:?}, so it must give {:?}; buffer={}", name, got, starts, exp, hex_short(buf)),
+                            replay(),
+                        );
+                        return;
+                    }
+                }
+            }
+        }
+    }
     if ctx.want_sample() && nontrivial {
         ctx.sample(|| json!({"buffer": hex_short(buf), "reference": {"consumed": rc, "frame": rf}, "iterator_frames": it_frames}));
     }
@@ -981,7 +1051,7 @@ pub fn c05(p: &Params) -> Outcome {
     }
     Outcome {
         ctx: total,
-        rule: "generated streams (valid frames, garbage, lone 0xD3, damaged CRC, truncated, long headers, nested frames) up to 64 KiB, long streams to 270 KB and floods of 127..70000 dead candidates in one buffer; oracle = reference scanner + direct invariants + iterator equivalence; non-trivial = scanner had to skip bytes / stop at an incomplete candidate, or stream contains nested/stray/damaged segments; distinct by buffer hash".into(),
+        rule: "generated streams (valid frames, garbage, lone 0xD3, damaged CRC, truncated, long headers, nested frames) up to 64 KiB, long streams to 270 KB and floods of 127..70000 dead candidates in one buffer; oracle = reference scanner + direct invariants + iterator equivalence (next() and the adaptors nth / skip / step_by / last / count); non-trivial = scanner had to skip bytes / stop at an incomplete candidate, or stream contains nested/stray/damaged segments; distinct by buffer hash".into(),
         exhaustive: false,
         extra: json!({}),
     }
